@@ -193,7 +193,8 @@ def neighbourhood(name, case, p, n):
     if name in ("roc", "speed"):
         return {p, p + 1}
     if name == "flat_line":
-        k = max(int(case["suspect"]) // case["D"], int(case["fail"]) // case["D"])
+        from .c11 import kof
+        k = max(kof(case["suspect"], case["D"]), kof(case["fail"], case["D"]))
         return set(range(p, p + k + 1))
     if name == "attenuated":
         P = case.get("period")
